@@ -608,12 +608,42 @@ qb_ipcs_connection_unref(struct qb_ipcs_connection *c)
 	}
 }
 
+/*
+ * Run connection_closed for a connection that is shutting down; if the
+ * application asks for it (non-zero return) schedule another run and keep
+ * the initial reference until then.
+ */
+static void
+_ipcs_connection_closed_run(void *data)
+{
+	struct qb_ipcs_connection *c = (struct qb_ipcs_connection *)data;
+	int32_t res = 0;
+	int scheduled_retry = 0;
+
+	if (c->service->serv_fns.connection_closed) {
+		res = c->service->serv_fns.connection_closed(c);
+	}
+	if (res != 0) {
+		/* OK, so they want the connection_closed
+		 * function re-run */
+		res = c->service->poll_fns.job_add(QB_LOOP_LOW, c,
+						   _ipcs_connection_closed_run);
+		if (res == 0) {
+			/* this function is going to be called again.
+			 * so hold off on the unref */
+			scheduled_retry = 1;
+		}
+	}
+	remove_tempdir(c->description);
+	if (scheduled_retry == 0) {
+		/* This removes the initial alloc ref */
+		qb_ipcs_connection_unref(c);
+	}
+}
+
 void
 qb_ipcs_disconnect(struct qb_ipcs_connection *c)
 {
-	int32_t res = 0;
-	qb_loop_job_dispatch_fn rerun_job;
-
 	if (c == NULL) {
 		return;
 	}
@@ -637,33 +667,14 @@ qb_ipcs_disconnect(struct qb_ipcs_connection *c)
 		c->state = QB_IPCS_CONNECTION_SHUTTING_DOWN;
 		c->service->stats.active_connections--;
 		c->service->stats.closed_connections++;
+		_ipcs_connection_closed_run(c);
 	}
-	if (c->state == QB_IPCS_CONNECTION_SHUTTING_DOWN) {
-		int scheduled_retry = 0;
-		res = 0;
-		if (c->service->serv_fns.connection_closed) {
-			res = c->service->serv_fns.connection_closed(c);
-		}
-		if (res != 0) {
-			/* OK, so they want the connection_closed
-			 * function re-run */
-			rerun_job =
-			    (qb_loop_job_dispatch_fn) qb_ipcs_disconnect;
-			res = c->service->poll_fns.job_add(QB_LOOP_LOW,
-							   c, rerun_job);
-			if (res == 0) {
-				/* this function is going to be called again.
-				 * so hold off on the unref */
-				scheduled_retry = 1;
-			}
-		}
-		remove_tempdir(c->description);
-		if (scheduled_retry == 0) {
-			/* This removes the initial alloc ref */
-			qb_ipcs_connection_unref(c);
-		}
-	}
-
+	/*
+	 * A connection that is already SHUTTING_DOWN has had (or is
+	 * scheduled to have) connection_closed run and its initial
+	 * reference dropped: disconnecting it again must not do either
+	 * a second time.
+	 */
 }
 
 static void
